@@ -68,6 +68,11 @@ func decorate(r *rand.Rand, nodes []*newick.Node) {
 	for _, n := range nodes {
 		n.Name = genNewickName(r)
 		n.Distance = genNewickDist(r)
+		// A leaf is a node WITHOUT children: a nil list, an empty one, or one with room left from children that
+		// were removed — the same tree.
+		if len(n.Children) == 0 && r.IntN(3) == 0 {
+			n.Children = pick(r, [][]*newick.Node{{}, make([]*newick.Node, 0, 4), append([]*newick.Node{{Name: "removed"}}, nil)[:0]})
+		}
 	}
 }
 
@@ -150,6 +155,7 @@ func init() {
 			{Name: "decimals", QShards: 4, TShards: 12, Run: c05Decimals},
 			{Name: "prefixes", Run: prefixUnit("newick", false, 0)},
 			{Name: "edges", Run: edgeUnit("newick")},
+			{Name: "lexicon", TShards: 4, Run: lexiconUnit("newick")},
 			{Name: "fieldlens", TShards: 2, Run: lengthUnit("newick")},
 			{Name: "parallel", Race: true, Run: codecParallel("newick")},
 			{Name: "histories", Run: codecHistories("newick")},
